@@ -18,7 +18,7 @@ VARIANTS = {0: "given order, main read and evaluated", 1: "definitions in revers
 def run(tier, seed):
     rep = common.Report(PROP, tier, seed)
     vdrive = common.build_harness()
-    n, depth = (400, 4) if tier == "quick" else (5000, 5)
+    n, depth = (400, 4) if tier == "quick" else (3000, 5)
     stimuli = []
     for k, (cnt, dep) in enumerate(((n, depth), (n // 4, depth + 1))):
         p = subprocess.run([vdrive, "c01", "gen", str(seed * 10 + k), str(cnt), str(dep), "defs"], capture_output=True, cwd=common.scratch(), timeout=900)
